@@ -31,6 +31,8 @@ pub enum UdpOp {
     /// send one datagram with this payload size to target `t`
     Send { t: usize, size: usize },
     Pause(u64),
+    /// the server's next `send_to` toward target `t` fails once (ENOBUFS): that datagram is lost, nothing else may change
+    ServerSendFault { t: usize },
 }
 
 #[derive(Clone, Debug, Serialize, Deserialize, PartialEq)]
@@ -58,6 +60,9 @@ pub struct UdpPlan {
     /// second real client (another user) on the same server
     #[serde(default)]
     pub second_client_password: Option<String>,
+    /// the plan injects send errors on the server: a datagram may be lost (never duplicated, altered or misdelivered)
+    #[serde(default)]
+    pub send_faults: bool,
 }
 
 pub const CLIENT2_PORT: u16 = 1081;
@@ -163,6 +168,10 @@ async fn udp_app(ix: usize, ops: Vec<UdpOp>, targets: Vec<UdpTarget>, via_port: 
     for op in ops {
         match op {
             UdpOp::Pause(ms) => tokio::time::sleep(Duration::from_millis(ms)).await,
+            UdpOp::ServerSendFault { t } => {
+                let port = targets[t].port;
+                world::with(|w| w.add_fault(world::FaultKind::UdpSendErr, port, rt::NODE_SERVER, 1));
+            }
             UdpOp::Send { t, size } => {
                 seq += 1;
                 let p = dgram_payload(ix, t, seq, 0, size);
@@ -330,7 +339,7 @@ pub fn check_udp(prop: &str, plan: &Plan, up: &UdpPlan, run: &UdpRun) -> Vec<Vio
             }
             let n = delivered.get(&(ai, *t, *seq)).copied().unwrap_or(0);
             let oversize = *size > must_carry(plan.config.proto);
-            if n == 0 && up.loss_pm == 0 && !oversize {
+            if n == 0 && up.loss_pm == 0 && !oversize && !up.send_faults {
                 v.push(Violation::new(prop, sig("datagram-lost"), format!("datagram app {ai} -> target {t} seq {seq} ({size} bytes) never reached the target")));
             }
             if n > 1 && !(lossy && legacy) {
@@ -391,7 +400,7 @@ pub fn check_udp(prop: &str, plan: &Plan, up: &UdpPlan, run: &UdpRun) -> Vec<Vio
                 v.push(Violation::new(prop, sig("reply-duplicated"), format!("application {ai}: reply target {t} seq {seq} r {r} arrived {n} times")));
             }
         }
-        if up.loss_pm == 0 {
+        if up.loss_pm == 0 && !up.send_faults {
             for (t, seq, size) in &o.sent[ai] {
                 if *size < 9 || delivered.get(&(ai, *t, *seq)).copied().unwrap_or(0) == 0 {
                     continue;
@@ -437,6 +446,13 @@ pub fn gen_udp_plan_for(g: &mut Gen, thorough: bool, max_payload: usize, edge: O
         let name = if g.chance(40) { Some(format!("u{t}-{}.udp.test", g.range(0, 999))) } else { None };
         targets.push(UdpTarget { ip: [127, 0, 9, 1 + t as u8], port: g.range(1024, 39_999) as u16, name, replies: *g.pick(&[0usize, 1, 1, 1, 2]), reply_size: match edge { Some(e) if g.chance(30) => (e + 70).saturating_sub(g.range(0, 90) as usize), _ => *g.pick(&[9usize, 16, 100, 1200, 1472, 4000]) } });
     }
+    if n_targets >= 2 && g.chance(35) {
+        // the same host (name and address) on another port is another target
+        let (ip, name, port) = (targets[0].ip, targets[0].name.clone(), targets[0].port);
+        targets[1].ip = ip;
+        targets[1].name = name;
+        targets[1].port = if port < 39_000 { port + 1 + g.below(50) as u16 } else { port - 1 };
+    }
     let mut apps = Vec::new();
     for _ in 0..n_apps {
         let n_ops = g.range(1, if thorough { 30 } else { 10 });
@@ -465,7 +481,7 @@ pub fn gen_udp_plan_for(g: &mut Gen, thorough: bool, max_payload: usize, edge: O
         }
         apps.push(ops);
     }
-    UdpPlan { apps, targets, loss_pm: 0, dup_pm: 0, reorder_pm: 0, second_client_password: None }
+    UdpPlan { apps, targets, loss_pm: 0, dup_pm: 0, reorder_pm: 0, second_client_password: None, send_faults: false }
 }
 
 /// README rows that carry UDP: Shadowsocks over udp (7 ciphers, with/without users), VMess over tcp/tls/ws/wss/quic, Trojan over tls/wss/quic.
@@ -554,6 +570,15 @@ pub fn gen_c11_system(seed: u64, thorough: bool) -> Plan {
         for _ in 0..burst {
             a.push(UdpOp::Send { t, size: g.range(9, 200) as usize });
         }
+    }
+    if g.chance(35) {
+        // in the middle of a burst one datagram cannot be sent on to its target: it is lost, and the copies of earlier
+        // datagrams that the network delivers afterwards must still be refused (the session keeps its window)
+        for a in up.apps.iter_mut() {
+            let at = a.len() - g.range(2, 5.min(a.len() as u64 - 1)) as usize;
+            a.insert(at, UdpOp::ServerSendFault { t: 0 });
+        }
+        up.send_faults = true;
     }
     up.loss_pm = 0;
     up.dup_pm = *g.pick(&[300, 600, 1000]);
